@@ -32,6 +32,6 @@ echo "[setup] nightly MIR dependency build ..."
 ( cd "$R" && time cargo +nightly rustc --offline --bin ckb-light-client --target-dir /verif/.cache/mir-target -- -Zunpretty=mir -o "$S/crate.mir" > /verif/.cache/logs/setup-mir.log 2>&1 ) || { tail -30 /verif/.cache/logs/setup-mir.log; echo "[setup] WARNING: MIR dependency build failed"; }
 if [ -d prelude_validation ]; then
   echo "[setup] prelude validation ..."
-  ( cd prelude_validation && RUSTUP_TOOLCHAIN=nightly-2026-08-21 cargo test --offline --target-dir /verif/.cache/pv-target 2>&1 | tail -5 ) || echo "[setup] WARNING: prelude validation failed"
+  ( set -o pipefail; cd prelude_validation && RUSTUP_TOOLCHAIN=nightly-2026-08-21 cargo test --offline --target-dir /verif/.cache/pv-target 2>&1 | tee /verif/.cache/logs/setup-prelude-validation.log | tail -5 ) || echo "[setup] WARNING: prelude validation FAILED (see .cache/logs/setup-prelude-validation.log): the model prelude disagrees with a real container"
 fi
 echo "[setup] done"
